@@ -119,9 +119,9 @@ class CCtx:
         self.args[name] = Kw(z)
         return z
 
-    def built_self(self, cname: str, *ctor_args: Any) -> None:
-        """verify mode: `self` is the object built by `cname(*ctor_args)` through the real __init__."""
-        self.self_builder = (cname, ctor_args)
+    def built_self(self, cname: str, *ctor_args: Any, **ctor_kwargs: Any) -> None:
+        """verify mode: `self` is the object built by `cname(*ctor_args, **ctor_kwargs)` through the real __init__."""
+        self.self_builder = (cname, ctor_args, ctor_kwargs)
 
     # ---- clauses
     def requires(self, f: Any, name: str = "") -> None:
@@ -277,6 +277,12 @@ class Registry:
                 env[k] = KwD(tuple(v[1].items()), v[2])
         st.env = saved
         ex.opaque_calls.add(f"{info.relpath}:{info.qualname}")
+        incoming = getattr(ex, "contract_args", {}).get("kwargs")
+        if kwrest is not None and incoming is not None and z3.is_expr(incoming) and info.node.args.kwarg is not None \
+                and "C16" in getattr(ex, "current_props", ()) and hasattr(kwrest, "z"):
+            # a link of the custom-type dispatch chain: the **kwargs handed on are the incoming ones (C16)
+            ex.oblige(st, f"call:{info.qualname}:kwargs-forwarded-unchanged", "requires", kwrest.z == incoming,
+                      ("C16",), text="the **kwargs handed to the next link of the dispatch chain are the incoming ones")
         return self._apply(ex, con, info.qualname, info, env, st)
 
     def apply_accept(self, ex, member: Any, pos, kws, kwrest, st: State):
@@ -457,7 +463,7 @@ def _path_consts(exprs: List[Any]) -> Dict[str, Any]:
     return out
 
 
-def noninterference(ex, st: State, r: Any, entry_len: int) -> Any:
+def noninterference(ex, st: State, r: Any, entry_len: int, observational: bool = True) -> Any:
     """Self-composition: a second run of the same path in which the hash seed, the clock / OS entropy
     results and every value computed along the path are renamed (inputs, the RNG draws and all
     uninterpreted functions are shared) must return the same result."""
@@ -469,7 +475,7 @@ def noninterference(ex, st: State, r: Any, entry_len: int) -> Any:
     r2 = z3.substitute(r, *subs)
     facts2 = [z3.substitute(f, *subs) for f in facts]
     same = r == r2
-    obs = getattr(REG, "obs_eq", None)
+    obs = getattr(REG, "obs_eq", None) if observational else None
     if obs is not None:
         # a freshly built schema object is a different allocation in the two runs: compare what can be observed of it
         # (class and registry, containers by content *and order*)
@@ -530,8 +536,8 @@ def verify_function(repo: Repo, ct: M.ClassTable, reg: Registry, con: Contract,
         env: Dict[str, Any] = {}
         for p in params:
             if p == "self" and c.self_builder is not None:
-                cname, cargs = c.self_builder
-                r = ex.construct(cname, list(cargs), {}, None, st)
+                cname, cargs, ckw = c.self_builder
+                r = ex.construct(cname, list(cargs), dict(ckw), None, st)
                 if len(r) != 1 or isinstance(r[0][1], Raised):
                     raise Unsupported("self construction forks / raises")
                 st, env["self"] = r[0]
@@ -562,6 +568,7 @@ def verify_function(repo: Repo, ct: M.ClassTable, reg: Registry, con: Contract,
         for name, f in c.req:
             st.assume(f)
         fr.entry_pc = list(st.pc)
+        ex.entry_len = len(fr.entry_pc)
         ex.generic_eq = bool(getattr(c, "generic_eq", False))
         ex.no_merge = bool(getattr(c, "no_merge", False))
         ex.contract_args = {k: (v.z if isinstance(v, (T, Kw)) else v) for k, v in c.args.items()}
